@@ -47,6 +47,10 @@ var snapSeeds = []snapSeed{
 	{"second", 3, []uint64{1, 2}, []uint64{3}, []string{"T:1", "run", "update:1", "run", "update:1", "run", "update:1",
 		`ev:{"k":"RS","n":0,"f":2}`, `ev:{"k":"D","n":1,"c":"0>1#0"}`, "snap:1", `ev:{"k":"SS","n":0}`, `ev:{"k":"F","n":0}`, `ev:{"k":"SW","n":0}`,
 		`ev:{"k":"RR","n":0,"f":2}`, `ev:{"k":"F","n":0}`, `ev:{"k":"ST","n":0}`}, nil},
+	// a promotion entry is appended and on its way to n2 when a snapshot is requested: the configuration commits
+	// between the request and the moment the FSM hands over its state (D5)
+	{"member-inflight", 3, []uint64{1, 2}, []uint64{3}, []string{"T:1", "run", "update:1", "run", "update:1", "run",
+		"admin:1:promote:3", `ev:{"k":"RS","n":0,"f":2}`, "deliver:2"}, nil},
 	// a membership change is in flight while snapshots are requested
 	{"member", 3, []uint64{1, 2}, []uint64{3}, []string{"T:1", "run", "update:1", "run", "update:1", "run"}, []string{"promote:3", "remove:3"}},
 }
@@ -113,6 +117,13 @@ func snapScenarios(tier string) []*simScenario {
 		if s.name == "divergent-long" {
 			continue // used by the crash + progress scenario only
 		}
+		if s.name == "member-inflight" {
+			sc := scenSnap(s, 1, true, false, 1)
+			sc.Menu = simMenu{Snapshots: true, MaxSnaps: 1, Drops: true}
+			sc.Crashes = 0
+			out = append(out, sc)
+			continue
+		}
 		if s.name == "divergent" || s.name == "config-lagging" || s.name == "boundary" {
 			d := 2
 			if tier == "thorough" {
@@ -143,6 +154,13 @@ func init() {
 	for _, s := range snapSeeds {
 		if s.name == "second" {
 			simScenarios["snap-second-db"] = scenSnap(s, 2, false, true, 2)
+			continue
+		}
+		if s.name == "member-inflight" {
+			sc := scenSnap(s, 1, true, false, 1)
+			sc.Menu = simMenu{Snapshots: true, MaxSnaps: 1, Drops: true}
+			sc.Crashes = 0
+			simScenarios[sc.Name] = sc
 			continue
 		}
 		simScenarios["snap-"+s.name] = scenSnap(s, 1, true, false, 1)
